@@ -40,7 +40,9 @@ type Report struct {
 	Assumptions []string
 	Explanation string
 	NotDecided  []string
-	Analysed    []string // functions analysed
+	Analysed    []string       // functions analysed
+	Extra       map[string]any // extra coverage keys (thorough tier)
+	NoEvidence  bool
 	fatal       []string
 }
 
@@ -208,6 +210,10 @@ func (r *Report) Finish(verifDir, tier string, seed int64, start time.Time, find
 		fmt.Printf("VIOLATION property=%s replay=%s\n", r.Prop, filepath.Join(verifDir, replayRel))
 		out.ExitCode = 1
 	}
+	if r.NoEvidence {
+		fmt.Printf("%s: %d obligations, %d discharged, %d known findings, %d violations (%s tier, sub-run)\n", r.Prop, len(r.Obls), disch, out.Known, out.Violations, tier)
+		return out
+	}
 	// replay file (always rewritten; empty list when clean)
 	_ = os.MkdirAll(filepath.Join(verifDir, "evidence", "replay"), 0o755)
 	rp := map[string]any{"property": r.Prop, "tier": tier, "failed_obligations": bad, "checker_errors": r.fatal,
@@ -256,6 +262,9 @@ func (r *Report) Finish(verifDir, tier string, seed int64, start time.Time, find
 		"checker_cmd":         "bin/gldapcheck -prop " + r.Prop + " -tier " + tier,
 		"trusted_base":        []string{"go/types", "golang.org/x/tools/go/ssa v0.29.0", "go/packages loader", "semantics of sync, bufio, net, crypto/tls, context as documented"},
 		"exhaustive":          false,
+	}
+	for k, v := range r.Extra {
+		cov[k] = v
 	}
 	if r.Assumptions == nil {
 		r.Assumptions = []string{}
